@@ -10,6 +10,8 @@ from .c11 import reference as time_reference
 
 PROP = "C09"
 RULE = (
+    "[part huge_backlog_enum: 1030-4100 publications retained at once, with limit 0 / 16 bytes / none, one consumer "
+    "following the producer, one creeping through the backlog] "
     "operation sequences push(gap) / pull(consumer, fraction) on one real Output with 1-4 consumers: direct "
     "inputs, inputs behind pass-through adapters (also two inputs sharing one adapter instance), behind a fixed "
     "delay (also shared), and behind push-based adapters (previous/next/linear); every consumer's requests "
@@ -118,7 +120,8 @@ def _check(case, ctx, spill):
             else:
                 ts = shift(chain, t)
                 d = [abs((p - ts).total_seconds()) for p, _ in pubs]
-                exp_ok = [v for (p, v), dd in zip(pubs, d) if dd == min(d)]
+                md = min(d)
+                exp_ok = [v for (p, v), dd in zip(pubs, d) if dd == md]
                 last_src[i] = ts
             try:
                 r = inputs[i].pull_data(t)
@@ -222,9 +225,34 @@ def deep_case(draw):
     return {"consumers": cons, "ops": ops, "limit": draw(st.sampled_from([None, None, 0, 16]))}
 
 
+def check_huge(case, ctx):
+    """more than 2^10 / 2^11 retained (and, with a limit, spilled) publications at once: one consumer follows the
+    producer publication by publication, the other one pulled once at the start and then creeps through the backlog.
+    The compact case is expanded to an operation list for the ordinary check."""
+    n = case["n"]
+    ops = [["push", 0], ["pull", 0, 1, 1], ["pull", 1, 1, 1]]
+    for _ in range(n):
+        ops += [["push", 10], ["pull", 0, 1, 1]]
+    for k in range(case["creep"]):
+        ops.append(["pull", 1, 1, [97, 64, 131, 2][k % 4]])
+    ops += [["pull", 1, 1, 1], ["push", 10], ["pull", 0, 1, 1], ["pull", 1, 1, 1]]
+    ctx.event(f"backlog={n}")
+    check({"consumers": [{"chain": case["chain0"]}, {"chain": case["chain1"]}], "ops": ops, "limit": case["limit"]}, ctx)
+
+
+def enum_huge(tier):
+    for n in ((1030, 2060) if tier == "quick" else (1023, 1024, 1025, 1030, 2049, 2060, 4100)):
+        for limit in (0, 16, None):
+            for chain0, chain1 in (([], []), ([["scale", 1.0]], [["dfix", 45]])):
+                if tier == "quick" and n > 1030 and (limit != 0 or chain0):
+                    continue
+                yield {"n": n, "creep": 40, "limit": limit, "chain0": chain0, "chain1": chain1}
+
+
 def parts():
     return [
         Part("machines", check, strategy=case_st(60), budget={"quick": 1200, "thorough": 16000}, fuzz={"thorough": 4000}),
         Part("long_runs", check, strategy=case_st(250), budget={"quick": 100, "thorough": 8000}, shrink_budget=120),
         Part("deep_history", check, strategy=deep_case(), budget={"quick": 150, "thorough": 6000}, shrink_budget=120),
+        Part("huge_backlog_enum", check_huge, enumerate=enum_huge, exhaustive=True, procs={"quick": 4, "thorough": 16}),
     ]
